@@ -19,3 +19,25 @@ Theorem C08_packed_lookup :
          forall i j : nat, (i < rows)%nat -> (j < cols)%nat -> lookup cols cell order i j = cell i j.
 Proof. exact PackCore.lookup_correct. Qed.
 Print Assumptions C08_packed_lookup.
+
+From YG Require Import LRBase Pipeline PipelineRun Drivers DriverSim.
+Close Scope Z_scope.
+Open Scope nat_scope.
+
+(* C08/C05 for the pipeline: if the packed lookups equal the dense cells (packed_agrees; see C05_packed_agrees for when that holds), all five output variants - go, go -u, go -o, go -o -u, typescript: packed or dense table, global or object re-initialisation - return the same result (verdict, error position, reductions, value) on every input and every fuel *)
+Theorem C08_variants :
+  forall gi : ginfo,
+         (forall r d : nat, nth_error (rhs_of (gi_rules gi) r) d <> Some 0) ->
+         lhs_of (gi_rules gi) 0 = 0 ->
+         (forall r d : nat, nth_error (rhs_of (gi_rules gi) r) d <> Some eof) ->
+         (exists S : nat, rhs_of (gi_rules gi) 0 = [S]) ->
+         eof < gi_nsyms gi ->
+         (forall (r : nat) (R : rule), nth_error (gi_rules gi) r = Some R -> lhs R < gi_nsyms gi) ->
+         forall t : tables,
+         generate_tables gi = inr t ->
+         packed_agrees gi t ->
+         forall (v1 v2 : variant) (act : semact) (fuel : nat) (inp : list tok),
+         (forall x : tok, In x inp -> fst x < gi_nsyms gi) ->
+         parse v1 t (gi_rules gi) act fuel inp = parse v2 t (gi_rules gi) act fuel inp.
+Proof. exact PipelineRun.pipeline_variants_agree. Qed.
+Print Assumptions C08_variants.
